@@ -72,7 +72,19 @@ func (d c16Doc) render(format string) []byte {
 // mutateCfg derives the next document from the previous one.
 func mutateCfg(t *rapid.T, prev cfggen.Config) (cfggen.Config, string) {
 	c := prev.Clone()
-	switch rapid.IntRange(0, 13).Draw(t, "mutation") {
+	switch rapid.IntRange(0, 15).Draw(t, "mutation") {
+	case 14, 15:
+		// an edit that leaves the length of the document as it was: one letter of a name, one digit of a prefix
+		for i := range c.Users {
+			if n := c.Users[i].Name; n != "" && n[len(n)-1] >= 'a' && n[len(n)-1] < 'z' {
+				c.Users[i].Name = n[:len(n)-1] + string(n[len(n)-1]+1)
+				return c, "same-length-edit"
+			}
+		}
+		if len(c.PrefixDeny) > 0 && strings.HasPrefix(c.PrefixDeny[0], "10.1.9.") {
+			c.PrefixDeny[0] = "10.1.8." + strings.TrimPrefix(c.PrefixDeny[0], "10.1.9.")
+			return c, "same-length-edit"
+		}
 	case 12:
 		// a filter list that the loader cannot parse completely (a typo in one entry): whatever it makes
 		// of it, it makes the same of it after a reload as on a fresh start
@@ -160,7 +172,7 @@ func mutateCfg(t *rapid.T, prev cfggen.Config) (cfggen.Config, string) {
 }
 
 func genC16(t *rapid.T) (c16Case, []string) {
-	c := c16Case{Format: rapid.SampledFrom([]string{"yaml", "json"}).Draw(t, "format"), Via: rapid.SampledFrom([]string{"unmarshal", "load", "load"}).Draw(t, "via"),
+	c := c16Case{Format: rapid.SampledFrom([]string{"yaml", "json"}).Draw(t, "format"), Via: rapid.SampledFrom([]string{"unmarshal", "load", "load", "load-same-mtime"}).Draw(t, "via"),
 		Lazy: rapid.Bool().Draw(t, "lazy_collect")}
 	w := cfggen.GenWorld(t)
 	cur := w.Cfg
@@ -184,7 +196,11 @@ func genC16(t *rapid.T) (c16Case, []string) {
 		}
 		doc := cur.Clone()
 		doc.Extra = nil
-		drawExtraKeys(t, &doc) // each document decides anew about keys beyond the known schema
+		if label == "same-length-edit" && len(c.Docs) > 0 && kind == "valid" {
+			doc.Extra = c.Docs[len(c.Docs)-1].Cfg.Extra // nothing else changes
+		} else {
+			drawExtraKeys(t, &doc) // each document decides anew about keys beyond the known schema
+		}
 		c.Docs = append(c.Docs, c16Doc{Kind: kind, Cfg: doc})
 		labels = append(labels, kind+":"+label)
 	}
@@ -199,12 +215,18 @@ type docLoader interface {
 
 // feed hands a document to the loader the way the case asks for.
 func feed(l docLoader, via, dir string, doc []byte) error {
-	if via != "load" {
+	if via != "load" && via != "load-same-mtime" {
 		return l.Unmarshal(doc)
 	}
 	path := filepath.Join(dir, "tacquito.conf")
+	before, statErr := os.Stat(path)
 	if err := os.WriteFile(path, doc, 0o600); err != nil {
 		return fmt.Errorf("HARNESS-BUG: %v", err)
+	}
+	if via == "load-same-mtime" && statErr == nil {
+		// rewritten in place and given its previous modification time back (cp -p, rsync -t, two saves
+		// within one tick of a coarse file system clock)
+		_ = os.Chtimes(path, before.ModTime(), before.ModTime())
 	}
 	return l.Load(path)
 }
